@@ -8,7 +8,9 @@ CONSTANTS
     DecrAfterSilence = TRUE
     UseSem = TRUE
     NotifyArm = TRUE
+    AwaitBodyOnTimeout = TRUE
+    Timeouts = TRUE
     BroadcastAll = TRUE
 SPECIFICATION MonSpec
-INVARIANTS Bounded NoSelfOverlap NoneRunningAtReturn MonStartOnlyWhenQuiet MonAllReturned MonCancelReaches
+INVARIANTS Bounded NoSelfOverlap NoneRunningAtReturn MonStartOnlyWhenQuiet MonAllReturned MonCancelReaches MonCallersBalanced
 CHECK_DEADLOCK FALSE
